@@ -50,7 +50,7 @@ func run(p *analysis.Pass) (*BoundaryFieldEffects, error) {
 		return &BoundaryFieldEffects{}, nil
 	}
 
-	collected := computeBoundaryFieldEffects(pass)
+	collected := computeBoundaryFieldEffects(pass, conf)
 	if err := importUsedParamEffects(pass, collected.summary, collected.calledFunctions); err != nil {
 		return nil, err
 	}
